@@ -28,9 +28,9 @@ META = {
     "specs": ["Security", "SecurityTrace"],
 }
 
-KINDS = ["html_block", "html_inline", "raw_dir", "evalrst_raw", "evalrst_rawrole", "hardbreak", "strike", "html_cblock", "evalrst_mdsub",
+KINDS = ["html_block", "html_inline", "raw_dir", "evalrst_raw", "evalrst_rawrole", "hardbreak", "strike", "html_cblock", "task_html", "evalrst_mdsub",
          "include", "include_literal", "include_code", "include_angle", "evalrst_include", "csv_file", "raw_file"]
-RAWK = KINDS[:8]
+RAWK = KINDS[:9]
 WRAPPERS = ["none", "quote", "list", "note", "sec", "cls"]      # cls: docutils' class directive, which returns its parsed body itself
 INVS = ["NoRawWhenDisabled", "NoFileWhenDisabled", "RefusalsWarn", "MarkersKept", "AllowedPass"]
 
@@ -62,6 +62,8 @@ def construct_lines(kind, n, d: Path):
         return ["line a\\", "line b"]
     if kind == "strike":
         return ["~~struck~~ out"]
+    if kind == "task_html":     # a task list item (its checkbox is a raw node) whose continuation paragraph starts with inline HTML
+        return ["- [x] task", "", f"  <b>SENTINEL{n}x</b> continued"]
     if kind == "include":
         return [f"```{{include}} inc{n}.md", "```"]
     if kind == "include_literal":
@@ -134,7 +136,7 @@ def observe(case):
     src = d / "doc.md"
     src.write_text(text)
     ov = {"raw_enabled": case["rawOn"], "file_insertion_enabled": case["fileOn"],
-          "myst_enable_extensions": ["strikethrough", "substitution"], "report_level": 2,
+          "myst_enable_extensions": ["strikethrough", "substitution", "tasklist"], "report_level": 2,
           "myst_substitutions": {f"badge{n}": f"<b>SENTINEL{n}x</b>" for n in range(1, len(case["doc"]) + 1)}}
     if case.get("suppress"):
         ov["myst_suppress_warnings"] = ["myst", "docutils"]
@@ -272,7 +274,7 @@ def run(ctx):
                         "file reads observed through sys.addaudithook('open') in the worker processes"]
     base = {"DevFilterSkips": False, "DevAngleNoGate": False, "DevFilterLastSection": False}
     runs = [("pairs", KINDS, WRAPPERS, 2 if quick else 2), ("rawtriples", RAWK, ["none"], 3),
-            ("files", KINDS[9:], ["none", "note"], 2 if quick else 3)]
+            ("files", KINDS[10:], ["none", "note"], 2 if quick else 3)]
     if not quick:
         runs.append(("triples_top", KINDS, ["none"], 3))
     recs = []
